@@ -85,8 +85,8 @@ def build_config(model, label, cls_short, options):
     except Raised as r:
         cfg.error = r
         return cfg
-    cfg.block_types = list(interp.gstate[(PKG + '.block_token', '_token_types')])
-    cfg.span_types = list(interp.gstate[(PKG + '.span_token', '_token_types')])
+    cfg.block_types = list(interp.global_value(PKG + '.block_token', '_token_types'))
+    cfg.span_types = list(interp.global_value(PKG + '.span_token', '_token_types'))
     cfg.obj = obj
     rm = obj.attrs.get('render_map')
     if not isinstance(rm, dict):
